@@ -1,975 +1,11 @@
 package c01
 
-// Workload registry: for every shipped workload the admissibility constraints
-// of its size/shape parameters, transcribed from the workload's own code (the
-// citation is next to each constraint; paths are relative to
-// /repo/amd/benchmarks unless they start with samples/ or tests/), the cost
-// caps of the generators (a cost cap, not a code limit) and the configuration
-// classes for which the acceptance matrix claims timing mode.
-//
-// Vocabulary: nq = number of GPU ids the workload sees. With -unified-gpus
-// the runner replaces the id list by the single id of the unified device
-// (samples/runner/runner.go createUnifiedGPUs), so nq = 1 there; with -gpus
-// nq = len(gpus).
+import "verif/lib/benchgen"
 
-import (
-	"fmt"
-	"sort"
-
-	"pgregory.net/rapid"
-
-	"verif/lib/stats"
+// The workload registry and the case generator live in lib/benchgen (shared with the C02 check).
+var (
+	genCase    = benchgen.GenCase
+	admissible = benchgen.Admissible
+	anchors    = benchgen.Anchors
+	sortedKeys = benchgen.SortedKeys
 )
-
-type params = map[string]int
-
-type workload struct {
-	name string
-	// accept: the acceptance script's fixed size (tests/acceptance/cases.go
-	// sizeArgs; flags it does not pass keep the sample main's defaults). For
-	// workloads the script does not list, the sample main's defaults.
-	accept params
-	// timing: configuration classes the acceptance matrix lists with
-	// timing: true for this workload (nil = none).
-	timing func(c Case) bool
-	// cdna3: the workload ships a gfx942 code object AND the acceptance matrix
-	// lists it with arch cdna3.
-	cdna3 bool
-	// gcn3: false only for vectoradd (ships nothing but a gfx942 object).
-	gcn3 bool
-	// plainMultiGPU: "" when -gpus=1,2[,3,4] is admissible, else the reason
-	// (from the workload's code) why it is not.
-	plainMultiGPU string
-	// gen draws admissible parameters for nq GPUs under the cost cap of the mode.
-	gen func(t *rapid.T, nq int, timing bool) params
-	// check returns "" when p is admissible for nq GPUs, else the violated
-	// precondition. It is the executable form of the constraints below and is
-	// applied to every case before it runs (generated, replayed, regress).
-	check func(p params, nq int) string
-	// partial reports whether a launch dimension of the case is not a multiple
-	// of the work-group size (the workload then launches partial work-groups or
-	// over-provisions the grid and guards with a bounds check in the kernel).
-	partial func(p params, nq int) bool
-}
-
-func isPow2(n int) bool { return n > 0 && n&(n-1) == 0 }
-
-func bad(format string, a ...any) string { return fmt.Sprintf(format, a...) }
-
-// drawSize draws lo..hi with a bias towards the neighbourhood of multiples of
-// unit (the work-group size) and towards the bounds.
-func drawSize(t *rapid.T, name string, lo, hi, unit int) int {
-	if hi < lo {
-		hi = lo
-	}
-	switch rapid.IntRange(0, 5).Draw(t, name+"-kind") {
-	case 0, 1: // a multiple of the work-group size, +-1
-		maxK := hi / unit
-		if maxK >= 1 {
-			v := rapid.IntRange(1, maxK).Draw(t, name+"-k")*unit + rapid.SampledFrom([]int{0, 0, -1, 1}).Draw(t, name+"-d")
-			if v >= lo && v <= hi {
-				return v
-			}
-		}
-	case 2: // small
-		if lo+unit < hi {
-			return rapid.IntRange(lo, lo+unit).Draw(t, name)
-		}
-	}
-	return rapid.IntRange(lo, hi).Draw(t, name)
-}
-
-// drawMult draws unit*k with unit*k in lo..hi (k >= 1).
-func drawMult(t *rapid.T, name string, unit, hi int) int {
-	maxK := hi / unit
-	if maxK < 1 {
-		maxK = 1
-	}
-	return unit * rapid.IntRange(1, maxK).Draw(t, name)
-}
-
-func pick(timing bool, emu, tim int) int {
-	if timing {
-		return tim
-	}
-	return emu
-}
-
-// Timing classes of tests/acceptance/cases.go (gcn3 = no arch given there).
-//
-// fullMatrix: the 20-class block used by atax, bicg, fir, aes, kmeans,
-// pagerank, matrixmultiplication, matrixtranspose, simpleconvolution,
-// floydwarshall, relu, stencil2d, fft(gcn3), nbody: gpus {1} plain, {1,2} and
-// {1,2,3,4} plain and unified, each with unified memory off/on, timing
-// false/true, arch "" (gcn3), gpuType "" (r9nano).
-func fullMatrix(c Case) bool { return c.Arch == "gcn3" }
-
-// bfs (cases.go, "../../benchmarks/shoc/bfs" gcn3 block): {1} plain, {1,2} and
-// {1,2,3,4} only as unified device; unified memory off/on.
-func bfsMatrix(c Case) bool {
-	return c.Arch == "gcn3" && (len(c.GPUs) == 1 || c.Unified)
-}
-
-// spmv (cases.go, first "../../benchmarks/shoc/spmv" block): all GPU sets
-// plain and unified, unified memory never.
-func spmvMatrix(c Case) bool { return c.Arch == "gcn3" && !c.UnifiedMemory }
-
-// vectoradd (cases.go, "CDNA3/MI300A (gfx942) architecture tests"): timing
-// only with arch cdna3 + gpuType mi300a: {1} plain, {1,2} and {1,2,3,4}
-// unified, unified memory off.
-func vectoraddMatrix(c Case) bool {
-	return c.Arch == "cdna3" && !c.UnifiedMemory && (len(c.GPUs) == 1 && !c.Unified || len(c.GPUs) > 1 && c.Unified)
-}
-
-var registry = map[string]*workload{}
-var workloadNames []string
-
-func register(w *workload) {
-	registry[w.name] = w
-	workloadNames = append(workloadNames, w.name)
-	sort.Strings(workloadNames)
-}
-
-func init() {
-	// ------------------------------------------------------------------ polybench/atax
-	register(&workload{
-		name: "atax", accept: params{"x": 256, "y": 256}, timing: fullMatrix, gcn3: true,
-		gen: func(t *rapid.T, nq int, timing bool) params {
-			n := drawSize(t, "n", 1, pick(timing, 600, 96), 256)
-			return params{"x": n, "y": n}
-		},
-		check: func(p params, nq int) string {
-			// polybench/atax/benchmark.go:146 the host vector x has NX elements but
-			// :277 (cpuAtax) and the kernel (native/atax.cl atax_kernel1) index it with
-			// j < NY, and :161/:170 allocate NY*4 device bytes for it while exec copies
-			// NX*4 bytes into them: NY > NX makes Verify index out of range, NX > NY
-			// overruns the device buffer. Only NX == NY is consistent.
-			if p["x"] != p["y"] || p["x"] < 1 {
-				return bad("atax needs x == y >= 1")
-			}
-			return ""
-		},
-		// :238 the grid is rounded up to a multiple of 256 and the kernels guard
-		// with `if (i < nx)` / `if (j < ny)` (native/atax.cl).
-		partial: func(p params, nq int) bool { return p["x"]%256 != 0 },
-	})
-	// ------------------------------------------------------------------ polybench/bicg
-	register(&workload{
-		name: "bicg", accept: params{"x": 256, "y": 256}, timing: fullMatrix, gcn3: true,
-		gen: func(t *rapid.T, nq int, timing bool) params {
-			m := pick(timing, 600, 96)
-			return params{"x": drawSize(t, "x", 1, m, 256), "y": drawSize(t, "y", 1, m, 256)}
-		},
-		check: func(p params, nq int) string {
-			// polybench/bicg/benchmark.go initMem: every buffer is sized by the
-			// dimension it is indexed with; no relation between NX and NY.
-			if p["x"] < 1 || p["y"] < 1 {
-				return bad("bicg needs x, y >= 1")
-			}
-			return ""
-		},
-		// exec: grids rounded up to 256, kernels guard `if (i < nx)` / `if (j < ny)`
-		// (native/bicg.cl).
-		partial: func(p params, nq int) bool { return p["x"]%256 != 0 || p["y"]%256 != 0 },
-	})
-	// ------------------------------------------------------------------ heteromark/fir
-	register(&workload{
-		name: "fir", accept: params{"length": 8192, "taps": 16}, timing: fullMatrix, gcn3: true,
-		gen: func(t *rapid.T, nq int, timing bool) params {
-			taps := rapid.IntRange(1, pick(timing, 48, 16)).Draw(t, "taps")
-			maxLen := pick(timing, 32768, 8192)
-			// exactness cap, see check
-			if lim := (1 << 24) / (taps*(taps-1)/2 + 1); lim < maxLen {
-				maxLen = lim
-			}
-			per := drawSize(t, "per-gpu-length", 1, maxLen/nq, 256)
-			return params{"length": per * nq, "taps": taps}
-		},
-		check: func(p params, nq int) string {
-			l, taps := p["length"], p["taps"]
-			// heteromark/fir/fir.go:126 NumTapsParam <= 0 silently becomes 16
-			if taps < 1 {
-				return bad("fir needs taps >= 1")
-			}
-			// :181 gridSize = Length / numGPUs and :224 offset gpuIndex*Length/numGPUs:
-			// the tail is not computed unless Length is divisible by the GPU count.
-			if l < nq || l%nq != 0 {
-				return bad("fir needs length >= 1 divisible by the %d GPUs used", nq)
-			}
-			// :266 Verify demands |cpu-gpu| < 1e-5 ABSOLUTE on sums of i*j products
-			// (inputs float32(i), coefficients float32(j)); that is an exact-equality
-			// demand, meaningful only while every partial sum is an integer below 2^24
-			// (exactly representable, so the order/fusing of the float operations
-			// cannot matter). Largest sum: (length-1) * taps*(taps-1)/2.
-			if (l-1)*(taps*(taps-1)/2) >= 1<<24 {
-				return bad("fir sums leave the exactly representable float32 integers")
-			}
-			return ""
-		},
-		// :181/:222 grid = Length/numGPUs with work-group 256: the driver launches a
-		// partial last work-group (the grid is exact, kernels.cl needs no guard).
-		partial: func(p params, nq int) bool { return (p["length"]/nq)%256 != 0 },
-	})
-	// ------------------------------------------------------------------ heteromark/aes
-	register(&workload{
-		name: "aes", accept: params{"length": 16384}, timing: fullMatrix, gcn3: true,
-		gen: func(t *rapid.T, nq int, timing bool) params {
-			blocksPer := drawSize(t, "blocks-per-gpu", 1, pick(timing, 8192, 2048)/nq, 64)
-			return params{"length": 16 * blocksPer * nq}
-		},
-		check: func(p params, nq int) string {
-			l := p["length"]
-			// heteromark/aes/aes.go:214 numWi = Length/16 and :295 cpuEncrypt encrypts
-			// Length/16 whole blocks: a trailing partial block is neither encrypted on
-			// the device nor by the reference (which leaves zeros there).
-			// :221 globalSizeX = numWi/len(gpus), :254 offset i*numWi/len(gpus).
-			if l < 16*nq || l%(16*nq) != 0 {
-				return bad("aes needs length >= 16 divisible by 16*%d", nq)
-			}
-			return ""
-		},
-		// work-group 64 (:215), exact grid, partial last work-group.
-		partial: func(p params, nq int) bool { return (p["length"]/16/nq)%64 != 0 },
-	})
-	// ------------------------------------------------------------------ heteromark/kmeans
-	register(&workload{
-		name: "kmeans", accept: params{"points": 1024, "features": 32, "clusters": 5, "max-iter": 5},
-		timing: fullMatrix, gcn3: true,
-		gen: func(t *rapid.T, nq int, timing bool) params {
-			per := drawSize(t, "points-per-gpu", 1, pick(timing, 4096, 512)/nq, 64)
-			points := per * nq
-			maxC := pick(timing, 8, 4)
-			if points < maxC {
-				maxC = points
-			}
-			return params{
-				"points":   points,
-				"features": rapid.IntRange(1, pick(timing, 34, 8)).Draw(t, "features"),
-				"clusters": rapid.IntRange(1, maxC).Draw(t, "clusters"),
-				"max-iter": rapid.IntRange(1, pick(timing, 5, 2)).Draw(t, "max-iter"),
-			}
-		},
-		check: func(p params, nq int) string {
-			// heteromark/kmeans/kmeans.go:238/:344 numWI = NumPoints/len(gpus), offset numWI*i
-			if p["points"] < nq || p["points"]%nq != 0 {
-				return bad("kmeans needs points >= 1 divisible by the %d GPUs used", nq)
-			}
-			// :332 initializeClusters copies the first NumClusters points
-			if p["clusters"] < 1 || p["clusters"] > p["points"] {
-				return bad("kmeans needs 1 <= clusters <= points")
-			}
-			if p["features"] < 1 || p["max-iter"] < 1 {
-				return bad("kmeans needs features, max-iter >= 1")
-			}
-			return ""
-		},
-		// work-group 64, exact grid, kernels also guard `point_id < npoints` (kernels.cl)
-		partial: func(p params, nq int) bool { return (p["points"]/nq)%64 != 0 },
-	})
-	// ------------------------------------------------------------------ heteromark/pagerank
-	register(&workload{
-		name: "pagerank", accept: params{"node": 64, "sparsity-permille": 500, "iterations": 2},
-		timing: fullMatrix, gcn3: true,
-		gen: func(t *rapid.T, nq int, timing bool) params {
-			return params{
-				"node":              rapid.IntRange(1, pick(timing, 256, 64)).Draw(t, "node"),
-				"sparsity-permille": rapid.SampledFrom([]int{1, 10, 50, 100, 250, 500, 800, 1000}).Draw(t, "sparsity"),
-				"iterations":        rapid.IntRange(1, 4).Draw(t, "iterations"),
-			}
-		},
-		check: func(p params, nq int) string {
-			// samples/pagerank/main.go clamps sparsity to <= 1 and the connection
-			// count to >= node; matrix/csr/matrixgenerator.go:131 draws unoccupied
-			// positions by rejection, which needs connections <= node*node (holds).
-			if p["node"] < 1 || p["iterations"] < 1 || p["sparsity-permille"] < 0 {
-				return bad("pagerank needs node, iterations >= 1")
-			}
-			return ""
-		},
-		// heteromark/pagerank/pagerank.go:293 grid = NumNodes*64 with work-group 64: always whole groups
-		partial: func(p params, nq int) bool { return false },
-	})
-	// ------------------------------------------------------------------ amdappsdk/matrixmultiplication
-	register(&workload{
-		name: "matrixmultiplication", accept: params{"x": 128, "y": 128, "z": 128}, timing: fullMatrix, gcn3: true,
-		gen: func(t *rapid.T, nq int, timing bool) params {
-			m := pick(timing, 256, 128)
-			return params{
-				"x": drawMult(t, "x/32", 32, m),
-				"z": drawMult(t, "z/32", 32, m),
-				"y": drawMult(t, "y/(4*nq)", 4*nq, m),
-			}
-		},
-		check: func(p params, nq int) string {
-			// amdappsdk/matrixmultiplication/MatrixMultiplication_Kernels.cl:49
-			// numLoops = (widthA/4)/lSizeX with lSizeX = 8 (mm.go:118): the inner
-			// dimension X is only covered when it is a multiple of 32.
-			if p["x"] < 32 || p["x"]%32 != 0 {
-				return bad("matrixmultiplication needs x a multiple of 32")
-			}
-			// mm.go:114 grid x = Z/4 float4 columns; the kernel tiles LDS and global
-			// indices with lSizeX = get_local_size(0) = 8 and has no bounds check, so Z
-			// must fill whole 8-wide groups: multiple of 32.
-			if p["z"] < 32 || p["z"]%32 != 0 {
-				return bad("matrixmultiplication needs z a multiple of 32")
-			}
-			// mm.go:115 height = Y/4/len(gpus) rows of 4x4 tiles per GPU
-			if p["y"] < 4*nq || p["y"]%(4*nq) != 0 {
-				return bad("matrixmultiplication needs y a multiple of 4*%d", nq)
-			}
-			return ""
-		},
-		// grid y = Y/4/nq with work-group height 8: a partial last row of groups is
-		// launched when it is not a multiple of 8 (each work-item fills and reads only
-		// its own lIdY rows of blockA, so the kernel tolerates that).
-		partial: func(p params, nq int) bool { return (p["y"]/4/nq)%8 != 0 },
-	})
-	// ------------------------------------------------------------------ amdappsdk/matrixtranspose
-	register(&workload{
-		name: "matrixtranspose", accept: params{"width": 1024}, timing: fullMatrix, gcn3: true,
-		gen: func(t *rapid.T, nq int, timing bool) params {
-			return params{"width": drawMult(t, "width/(64*nq)", 64*nq, pick(timing, 2048, 512))}
-		},
-		check: func(p params, nq int) string {
-			// amdappsdk/matrixtranspose/matrixtranspose.go:241 wiWidth = Width/4,
-			// :243 numWGWidth = wiWidth/16, :244 wgXPerGPU = numWGWidth/len(queues),
-			// :247 wiWidthPerGPU = wiWidth/len(queues); the kernel
-			// (native/MatrixTranspose_Kernels.cl) stages 16x16 float4 blocks in LDS
-			// without any bounds check: Width must be a multiple of 64 per GPU.
-			if p["width"] < 64*nq || p["width"]%(64*nq) != 0 {
-				return bad("matrixtranspose needs width a multiple of 64*%d", nq)
-			}
-			return ""
-		},
-		partial: func(p params, nq int) bool { return false },
-	})
-	// ------------------------------------------------------------------ amdappsdk/bitonicsort
-	register(&workload{
-		// commented out in tests/acceptance/cases.go (sizeArgs -length=4096): no timing class
-		name: "bitonicsort", accept: params{"length": 4096, "order-asc": 1}, gcn3: true,
-		gen: func(t *rapid.T, nq int, timing bool) params {
-			return params{
-				"length":    1 << rapid.IntRange(map[int]int{1: 1, 2: 2, 4: 3}[nq], 13).Draw(t, "log2-length"),
-				"order-asc": rapid.IntRange(0, 1).Draw(t, "order-asc"),
-			}
-		},
-		check: func(p params, nq int) string {
-			// amdappsdk/bitonicsort/bitonicsort.go:156 numStages = floor(log2(Length))
-			// and kernels.cl pairs element i with i + 2^k: a bitonic network, only
-			// defined for power-of-two lengths. :218-:220 Length/2 work-items are split
-			// over the queues, the last queue takes the remainder (any GPU count).
-			if !isPow2(p["length"]) || p["length"] < 2 {
-				return bad("bitonicsort needs a power-of-two length >= 2")
-			}
-			// :219 wiPerQueue = (Length/2)/len(queues) work-items are launched on every
-			// queue but the last: with fewer work-items than queues that is an empty
-			// grid, which no OpenCL/HIP launch admits.
-			if p["length"]/2 < nq {
-				return bad("bitonicsort needs at least one work-item per queue: length/2 >= %d", nq)
-			}
-			return ""
-		},
-		// work-group 64, exact grid (Length/2/nq work-items), partial group when smaller
-		partial: func(p params, nq int) bool { return (p["length"]/2/nq)%64 != 0 || (p["length"]/2)%nq != 0 },
-	})
-	// ------------------------------------------------------------------ amdappsdk/simpleconvolution
-	register(&workload{
-		name: "simpleconvolution", accept: params{"width": 254, "height": 254, "mask-size": 3}, timing: fullMatrix, gcn3: true,
-		gen: func(t *rapid.T, nq int, timing bool) params {
-			for {
-				mask := rapid.IntRange(1, pick(timing, 7, 3)).Draw(t, "mask-size")
-				m := pick(timing, 320, 80)
-				p := params{
-					"width":     drawSize(t, "width", 1, m, 64),
-					"height":    drawSize(t, "height", 1, m, 64),
-					"mask-size": mask,
-				}
-				if simpleConvCovers(p, nq) {
-					return p
-				}
-				// mask-size 1 with a pixel count not divisible by nq: make it divisible
-				p["height"] *= nq
-				if simpleConvCovers(p, nq) {
-					return p
-				}
-			}
-		},
-		check: func(p params, nq int) string {
-			if p["width"] < 1 || p["height"] < 1 || p["mask-size"] < 1 {
-				return bad("simpleconvolution needs width, height, mask-size >= 1")
-			}
-			// amdappsdk/simpleconvolution/simpleconvolution.go:243 each GPU gets
-			// floor((W+pad)*(H+pad)/len(gpus)) work-items (pad = mask-1) numbered from
-			// gridSize*gpuIndex; the kernel computes output[tid] for tid < W*H
-			// (SimpleConvolution_Kernels.cl:56). All outputs are produced only if the
-			// grids together cover W*H.
-			if !simpleConvCovers(p, nq) {
-				return bad("simpleconvolution grids do not cover the image: floor((W+pad)(H+pad)/%d)*%d < W*H", nq, nq)
-			}
-			return ""
-		},
-		// work-group 64, over-provisioned exact grid with `if(x >= width || y >= height) return`
-		partial: func(p params, nq int) bool {
-			pad := p["mask-size"] - 1
-			return ((p["width"]+pad)*(p["height"]+pad)/nq)%64 != 0
-		},
-	})
-	// ------------------------------------------------------------------ amdappsdk/floydwarshall
-	register(&workload{
-		name: "floydwarshall", accept: params{"node": 16, "iter": 0}, timing: fullMatrix, gcn3: true,
-		gen: func(t *rapid.T, nq int, timing bool) params {
-			n := drawMult(t, "node/8", 8, pick(timing, 96, 40))
-			return params{"node": n, "iter": rapid.SampledFrom([]int{0, 0, 1, 2, n / 2, n, n + 3}).Draw(t, "iter")}
-		},
-		check: func(p params, nq int) string {
-			// amdappsdk/floydwarshall/floydwarshall.go:243-244 a node count that is not
-			// a multiple of the 8x8 work-group is rounded UP and the rounded value is
-			// passed to the kernel as the row stride, while :166-:181 allocate
-			// NumNodes*NumNodes entries and Verify uses stride NumNodes: only multiples
-			// of 8 are consistent (the kernel has no bounds check).
-			if p["node"] < 8 || p["node"]%8 != 0 {
-				return bad("floydwarshall needs node a multiple of 8")
-			}
-			if p["iter"] < 0 {
-				return bad("floydwarshall needs iter >= 0")
-			}
-			return ""
-		},
-		partial: func(p params, nq int) bool { return false },
-	})
-	// ------------------------------------------------------------------ amdappsdk/fastwalshtransform
-	register(&workload{
-		// not in tests/acceptance/cases.go; sample default -length=1024
-		name: "fastwalshtransform", accept: params{"length": 1024}, gcn3: true,
-		// amdappsdk/fastwalshtransform/fastwalshtransform.go:145-146 exec issues the
-		// COMPLETE sequence of in-place passes to EVERY queue over the same
-		// undistributed array: with two or more queues the transform is applied
-		// several times concurrently. The host code does not partition the work, so
-		// plain multi-GPU is not a supported configuration of this workload.
-		plainMultiGPU: "exec runs the whole in-place transform once per queue on the same array (fastwalshtransform.go:145)",
-		gen: func(t *rapid.T, nq int, timing bool) params {
-			return params{"length": 1 << rapid.IntRange(1, 16).Draw(t, "log2-length")}
-		},
-		check: func(p params, nq int) string {
-			// :146/:204 steps 1,2,4,... < Length pair element i with i+step: Walsh-
-			// Hadamard butterflies, defined for power-of-two lengths (Verify itself
-			// indexes out of range otherwise).
-			if !isPow2(p["length"]) || p["length"] < 2 {
-				return bad("fastwalshtransform needs a power-of-two length >= 2")
-			}
-			return ""
-		},
-		// :142 grid = Length/2, work-group 256: one partial group when Length < 512
-		partial: func(p params, nq int) bool { return (p["length"]/2)%256 != 0 },
-	})
-	// ------------------------------------------------------------------ amdappsdk/nbody
-	register(&workload{
-		name: "nbody", accept: params{"particles": 1024, "iter": 8}, timing: fullMatrix, gcn3: true,
-		gen: func(t *rapid.T, nq int, timing bool) params {
-			return params{
-				"particles": drawSize(t, "particles", 0, pick(timing, 1100, 511), 256),
-				"iter":      rapid.IntRange(1, 3).Draw(t, "iter"),
-			}
-		},
-		check: func(p params, nq int) string {
-			// amdappsdk/nbody/nbody.go:139-142 Run itself normalises the particle count
-			// (raised to 256, then rounded down to a multiple of the 256 work-group):
-			// every non-negative count is admissible.
-			if p["particles"] < 0 || p["iter"] < 1 {
-				return bad("nbody needs particles >= 0, iter >= 1")
-			}
-			return ""
-		},
-		// the host rounds; the launch itself always uses whole groups
-		partial: func(p params, nq int) bool { return p["particles"]%256 != 0 },
-	})
-	// ------------------------------------------------------------------ amdappsdk/vectoradd
-	register(&workload{
-		name: "vectoradd", accept: params{"width": 4096, "height": 1}, timing: vectoraddMatrix, cdna3: true, gcn3: false,
-		// amdappsdk/vectoradd/vectoradd.go:139-160 every GPU gets numData/len(gpus)
-		// work-items and the per-GPU start only as HiddenGlobalOffsetX; the HIP kernel
-		// (native/vectoradd.cpp) computes its index as hipBlockDim_x*hipBlockIdx_x +
-		// hipThreadIdx_x and never reads a global offset, so every GPU recomputes
-		// elements [0, gridSize) and the rest of A stays 0. The host code does not
-		// partition the work for this kernel; the acceptance matrix lists multi-GPU
-		// vectoradd only as a unified device.
-		plainMultiGPU: "the HIP kernel ignores the per-GPU offset the host passes as a hidden argument (vectoradd.go:157, native/vectoradd.cpp)",
-		gen: func(t *rapid.T, nq int, timing bool) params {
-			groups := rapid.IntRange(1, pick(timing, 4096, 512)/nq).Draw(t, "groups-per-gpu")
-			n := 64 * groups * nq
-			h := 1 << rapid.IntRange(0, 6).Draw(t, "log2-height")
-			for n%h != 0 {
-				h /= 2
-			}
-			return params{"width": n / h, "height": h}
-		},
-		check: func(p params, nq int) string {
-			n := p["width"] * p["height"]
-			// amdappsdk/vectoradd/vectoradd.go:139 gridSize = numData/len(gpus) and
-			// :148 HiddenBlockCountX = gridSize/64 with HiddenRemainderX left 0: the
-			// gfx942 kernel derives its block size from these hidden arguments, so a
-			// partial last group would compute with block size 0. The host code only
-			// describes grids made of whole 64-wide groups.
-			if n < 64*nq || n%(64*nq) != 0 {
-				return bad("vectoradd needs width*height a multiple of 64*%d", nq)
-			}
-			return ""
-		},
-		partial: func(p params, nq int) bool { return false },
-	})
-	// ------------------------------------------------------------------ dnn/layer_benchmarks/relu
-	register(&workload{
-		name: "relu", accept: params{"length": 4096}, timing: fullMatrix, gcn3: true,
-		gen: func(t *rapid.T, nq int, timing bool) params {
-			return params{"length": nq * drawSize(t, "length-per-gpu", 1, pick(timing, 131072, 16384)/nq, 64)}
-		},
-		check: func(p params, nq int) string {
-			// dnn/layer_benchmarks/relu/main.go:194 numWI = Length/len(gpus), :198 offset numWI*i
-			if p["length"] < nq || p["length"]%nq != 0 {
-				return bad("relu needs length >= 1 divisible by the %d GPUs used", nq)
-			}
-			return ""
-		},
-		// work-group 64, exact grid; kernels.cl:4 also guards `if(index < count)`
-		partial: func(p params, nq int) bool { return (p["length"]/nq)%64 != 0 },
-	})
-	// ------------------------------------------------------------------ shoc/bfs
-	register(&workload{
-		name: "bfs", accept: params{"node": 1024, "degree": 3, "depth": 0}, timing: bfsMatrix, cdna3: true, gcn3: true,
-		// shoc/bfs/bfs.go:94 SelectGPU panics "BFS does not support multi-GPU execution yet."
-		plainMultiGPU: "SelectGPU panics for more than one GPU (shoc/bfs/bfs.go:94)",
-		gen: func(t *rapid.T, nq int, timing bool) params {
-			return params{
-				"node":   drawSize(t, "node", 2, pick(timing, 6000, 1024), 1024),
-				"degree": rapid.IntRange(0, 8).Draw(t, "degree"),
-				"depth":  rapid.SampledFrom([]int{0, 0, 0, 1, 2, 3, 5}).Draw(t, "depth"),
-			}
-		},
-		check: func(p params, nq int) string {
-			// shoc/bfs/graph.go:40-43 the generator adds edges u != v until the target
-			// count is reached: with one node and degree >= 2 it never terminates.
-			if p["node"] < 2 || p["degree"] < 0 || p["depth"] < 0 {
-				return bad("bfs needs node >= 2, degree >= 0, depth >= 0")
-			}
-			return ""
-		},
-		// shoc/bfs/bfs.go:179-180 work-group 1024, grid rounded up; the kernel clamps
-		// its chunk to numVertices (native/kernels.cl chk_sz)
-		partial: func(p params, nq int) bool { return p["node"]%1024 != 0 },
-	})
-	// ------------------------------------------------------------------ shoc/stencil2d
-	register(&workload{
-		name: "stencil2d", accept: params{"row": 64, "col": 64, "iter": 1}, timing: fullMatrix, cdna3: true, gcn3: true,
-		gen: func(t *rapid.T, nq int, timing bool) params {
-			return params{
-				"row":  drawMult(t, "row/16", 16, pick(timing, 256, 96)),
-				"col":  drawMult(t, "col/64", 64, pick(timing, 512, 192)),
-				"iter": rapid.IntRange(1, 3).Draw(t, "iter"),
-			}
-		},
-		check: func(p params, nq int) string {
-			// shoc/stencil2d/stencil2d.go:307 grid x = (NumRows-2)/16 row blocks (the
-			// sample passes NumRows = row+2): interior rows beyond a multiple of 16 are
-			// never computed. stencil2d.cl:65 the kernel derives the row length from
-			// get_num_groups(1)*get_local_size(1)+2 with work-group width 64 (:308/:310),
-			// so col must fill whole groups.
-			if p["row"] < 16 || p["row"]%16 != 0 {
-				return bad("stencil2d needs row a multiple of 16")
-			}
-			if p["col"] < 64 || p["col"]%64 != 0 {
-				return bad("stencil2d needs col a multiple of 64")
-			}
-			if p["iter"] < 1 {
-				return bad("stencil2d needs iter >= 1")
-			}
-			return ""
-		},
-		partial: func(p params, nq int) bool { return false },
-	})
-	// ------------------------------------------------------------------ shoc/spmv
-	register(&workload{
-		name: "spmv", accept: params{"dim": 128, "sparsity-permille": 10}, timing: spmvMatrix, cdna3: true, gcn3: true,
-		gen: func(t *rapid.T, nq int, timing bool) params {
-			for {
-				p := params{
-					"dim":               drawSize(t, "dim", 1, pick(timing, 1024, 384), 128),
-					"sparsity-permille": rapid.SampledFrom([]int{5, 10, 10, 50, 100, 300, 1000}).Draw(t, "sparsity"),
-				}
-				if p["dim"]*p["dim"]*p["sparsity-permille"]/1000 >= 1 && p["dim"]*p["dim"]*p["sparsity-permille"]/1000 <= 100000 {
-					return p
-				}
-			}
-		},
-		check: func(p params, nq int) string {
-			// shoc/spmv/spmv.go:136 nItems = int(Dim*Dim*Sparsity) non-zeros are placed
-			// by rejection sampling (matrix/csr/matrixgenerator.go:131): needs
-			// nItems <= Dim*Dim; :156-:176 allocate nItems*4 bytes: needs nItems >= 1.
-			n := int(float64(p["dim"]) * float64(p["dim"]) * (float64(p["sparsity-permille"]) / 1000))
-			if p["dim"] < 1 || n < 1 || p["sparsity-permille"] > 1000 {
-				return bad("spmv needs dim >= 1 and 1 <= dim*dim*sparsity <= dim*dim")
-			}
-			return ""
-		},
-		// :189-:191 grid = Dim, work-group 128, partial last group; spmv.cl:66 guards `myRow < dim`
-		partial: func(p params, nq int) bool { return p["dim"]%128 != 0 },
-	})
-	// ------------------------------------------------------------------ shoc/fft
-	register(&workload{
-		name: "fft", accept: params{"MB": 1, "bytes": 0, "passes": 1}, timing: fullMatrix, cdna3: true, gcn3: true,
-		gen: func(t *rapid.T, nq int, timing bool) params {
-			return params{
-				"MB":     1,
-				"bytes":  rapid.IntRange(8192, pick(timing, 2<<20, 256<<10)).Draw(t, "bytes"),
-				"passes": rapid.IntRange(1, 2).Draw(t, "passes"),
-			}
-		},
-		check: func(p params, nq int) string {
-			// shoc/fft/fft.go:146 halfNFfts = Bytes/8192 (rounded down) and :167 the
-			// grid is 64*2*halfNFfts: at least one pair of 512-point transforms.
-			bytes := p["bytes"]
-			if bytes == 0 {
-				bytes = p["MB"] << 20
-			}
-			if bytes < 8192 || p["passes"] < 1 {
-				return bad("fft needs >= 8192 bytes and passes >= 1")
-			}
-			return ""
-		},
-		partial: func(p params, nq int) bool { return false },
-	})
-	// ------------------------------------------------------------------ rodinia/nw
-	register(&workload{
-		// listed in tests/acceptance/cases.go only for cdna3 emulation (-length=64)
-		name: "nw", accept: params{"length": 64}, cdna3: true, gcn3: true,
-		// rodinia/nw/benchmark.go:155 SelectGPU panics "nw does not support multi-GPU mode"
-		plainMultiGPU: "SelectGPU panics for more than one GPU (rodinia/nw/benchmark.go:155)",
-		gen: func(t *rapid.T, nq int, timing bool) params {
-			return params{"length": drawMult(t, "length/64", 64, 512)}
-		},
-		check: func(p params, nq int) string {
-			// :108 blockSize = 64 and :246/:292 blockWidth = length/blockSize diagonal
-			// blocks: a remainder is never processed.
-			if p["length"] < 64 || p["length"]%64 != 0 {
-				return bad("nw needs length a multiple of 64")
-			}
-			return ""
-		},
-		partial: func(p params, nq int) bool { return false },
-	})
-	// ------------------------------------------------------------------ dnn/layer_benchmarks/conv2d
-	convCheck := func(p params, dil bool) string {
-		for _, k := range []string{"N", "C", "H", "W", "kernel-height", "kernel-width", "stride-x", "stride-y"} {
-			if p[k] < 1 {
-				return bad("%s must be >= 1", k)
-			}
-		}
-		if p["pad-x"] < 0 || p["pad-y"] < 0 {
-			return bad("padding must be >= 0")
-		}
-		dx, dy := 1, 1
-		if dil {
-			dx, dy = p["dilate-x"], p["dilate-y"]
-			if dx < 1 || dy < 1 {
-				return bad("dilation must be >= 1")
-			}
-		}
-		// dnn/layer_benchmarks/*/benchmark.go calculateOutputSize and
-		// dnn/tensor/operator.go Im2Col: the (dilated) kernel must fit into the
-		// padded input, else the output extent is <= 0.
-		if (p["kernel-height"]-1)*dy+1 > p["H"]+2*p["pad-y"] || (p["kernel-width"]-1)*dx+1 > p["W"]+2*p["pad-x"] {
-			return bad("kernel larger than the padded input")
-		}
-		return ""
-	}
-	conv2dCheck := func(p params, nq int) string {
-		if p["output-channel"] < 1 {
-			return bad("output-channel must be >= 1")
-		}
-		if why := convCheck(p, false); why != "" {
-			return why
-		}
-		// dnn/layers/conv2d.go:149-156 NewConv2D panics unless the UNPADDED input is
-		// at least as large as the kernel.
-		if p["H"] < p["kernel-height"] || p["W"] < p["kernel-width"] {
-			return bad("conv2d needs H >= kernel-height and W >= kernel-width")
-		}
-		// dnn/layers/conv2d.go:225-238 the weight gradient is an Im2Col of the input
-		// with the output gradient as kernel, stride 1 and dilation = stride; its
-		// extent is K + ((H+2*pad-K) mod stride) per axis and :238 copies it into the
-		// K-sized gradient tensor (gputensor/operator.go:298 panics on a size
-		// mismatch): the backward pass needs the stride to divide H+2*pad-K exactly.
-		if p["enable-backward"] != 0 {
-			if (p["H"]+2*p["pad-y"]-p["kernel-height"])%p["stride-y"] != 0 || (p["W"]+2*p["pad-x"]-p["kernel-width"])%p["stride-x"] != 0 {
-				return bad("conv2d backward needs the strides to divide H+2*pad-K exactly")
-			}
-		}
-		return ""
-	}
-	register(&workload{
-		// not in tests/acceptance/cases.go; sample defaults
-		name: "conv2d", gcn3: true,
-		accept: params{"N": 1, "C": 1, "H": 28, "W": 28, "output-channel": 3, "kernel-height": 3, "kernel-width": 3,
-			"pad-x": 0, "pad-y": 0, "stride-x": 1, "stride-y": 1, "enable-backward": 0},
-		plainMultiGPU: "SelectGPU panics for more than one GPU (dnn/layer_benchmarks/conv2d/benchmark.go:56)",
-		gen: func(t *rapid.T, nq int, timing bool) params {
-			for {
-				p := params{
-					"N": rapid.IntRange(1, 2).Draw(t, "N"), "C": rapid.IntRange(1, 3).Draw(t, "C"),
-					"H": rapid.IntRange(1, 16).Draw(t, "H"), "W": rapid.IntRange(1, 16).Draw(t, "W"),
-					"output-channel": rapid.IntRange(1, 4).Draw(t, "output-channel"),
-					"kernel-height":  rapid.IntRange(1, 5).Draw(t, "kernel-height"),
-					"kernel-width":   rapid.IntRange(1, 5).Draw(t, "kernel-width"),
-					"pad-x":          rapid.IntRange(0, 2).Draw(t, "pad-x"), "pad-y": rapid.IntRange(0, 2).Draw(t, "pad-y"),
-					"stride-x": rapid.IntRange(1, 3).Draw(t, "stride-x"), "stride-y": rapid.IntRange(1, 3).Draw(t, "stride-y"),
-					"enable-backward": rapid.IntRange(0, 1).Draw(t, "enable-backward"),
-				}
-				if conv2dCheck(p, nq) == "" {
-					return p
-				}
-				if p["enable-backward"] = 0; conv2dCheck(p, nq) == "" {
-					return p
-				}
-			}
-		},
-		check: conv2dCheck,
-		// every gputensor kernel is launched over its element count with work-group
-		// 64 (or 16x16 tiles rounded up for gemm) and guards with a bounds check
-		partial: func(p params, nq int) bool { return true },
-	})
-	register(&workload{
-		// not in tests/acceptance/cases.go; sample defaults
-		name: "im2col", gcn3: true,
-		accept: params{"N": 1, "C": 1, "H": 28, "W": 28, "kernel-height": 3, "kernel-width": 3,
-			"pad-x": 0, "pad-y": 0, "stride-x": 1, "stride-y": 1, "dilate-x": 1, "dilate-y": 1},
-		plainMultiGPU: "SelectGPU panics for more than one GPU (dnn/layer_benchmarks/im2col/benchmark.go:56)",
-		gen: func(t *rapid.T, nq int, timing bool) params {
-			for {
-				// many channels on a small image give a work-group grid that is much taller than
-				// wide (the channel count is a code-imposed free parameter; the image is kept small
-				// then for cost)
-				ch := rapid.SampledFrom([]int{1, 2, 3, 1, 2, 3, 8, 16, 64, 128}).Draw(t, "C")
-				maxHW := 24
-				if ch > 3 {
-					maxHW = 8
-				}
-				p := params{
-					"N": rapid.IntRange(1, 3).Draw(t, "N"), "C": ch,
-					"H": rapid.IntRange(1, maxHW).Draw(t, "H"), "W": rapid.IntRange(1, maxHW).Draw(t, "W"),
-					"kernel-height": rapid.IntRange(1, 5).Draw(t, "kernel-height"),
-					"kernel-width":  rapid.IntRange(1, 5).Draw(t, "kernel-width"),
-					"pad-x":         rapid.IntRange(0, 2).Draw(t, "pad-x"), "pad-y": rapid.IntRange(0, 2).Draw(t, "pad-y"),
-					"stride-x": rapid.IntRange(1, 3).Draw(t, "stride-x"), "stride-y": rapid.IntRange(1, 3).Draw(t, "stride-y"),
-					"dilate-x": rapid.IntRange(1, 2).Draw(t, "dilate-x"), "dilate-y": rapid.IntRange(1, 2).Draw(t, "dilate-y"),
-				}
-				if convCheck(p, true) == "" {
-					return p
-				}
-			}
-		},
-		check:   func(p params, nq int) string { return convCheck(p, true) },
-		partial: func(p params, nq int) bool { return true },
-	})
-}
-
-func simpleConvCovers(p params, nq int) bool {
-	pad := p["mask-size"] - 1
-	return (p["width"]+pad)*(p["height"]+pad)/nq*nq >= p["width"]*p["height"]
-}
-
-func sortedKeys(p params) []string {
-	keys := make([]string, 0, len(p))
-	for k := range p {
-		keys = append(keys, k)
-	}
-	sort.Strings(keys)
-	return keys
-}
-
-func numQueues(c Case) int {
-	if c.Unified {
-		return 1
-	}
-	return len(c.GPUs)
-}
-
-func gpuSetOK(g []int) bool {
-	switch len(g) {
-	case 1:
-		return g[0] == 1
-	case 2:
-		return g[0] == 1 && g[1] == 2
-	case 4:
-		return g[0] == 1 && g[1] == 2 && g[2] == 3 && g[3] == 4
-	}
-	return false
-}
-
-// admissible returns "" when the case lies in the documented domain.
-func admissible(c Case) string {
-	w, ok := registry[c.Workload]
-	if !ok {
-		return "unknown workload"
-	}
-	if !gpuSetOK(c.GPUs) {
-		return "GPU set must be {1}, {1,2} or {1,2,3,4}"
-	}
-	if c.Unified && len(c.GPUs) == 1 {
-		return "a unified device of one GPU is not in the domain"
-	}
-	switch c.Arch {
-	case "gcn3":
-		if !w.gcn3 {
-			return "workload ships no gcn3 code object"
-		}
-	case "cdna3":
-		if !w.cdna3 {
-			return "cdna3 is generated only where the workload ships a gfx942 object and the acceptance matrix lists it"
-		}
-	default:
-		return "arch must be gcn3 or cdna3"
-	}
-	if !c.Unified && len(c.GPUs) > 1 && w.plainMultiGPU != "" {
-		return "plain multi-GPU not supported by the workload: " + w.plainMultiGPU
-	}
-	if c.Timing {
-		if w.timing == nil || !w.timing(c) {
-			return "timing mode is claimed only for the configuration classes of tests/acceptance/cases.go"
-		}
-		want := ""
-		if c.Arch == "cdna3" {
-			want = "mi300a"
-		}
-		if c.GPUType != want {
-			return "gpu type must be the acceptance matrix's (r9nano default for gcn3, mi300a for cdna3)"
-		}
-	} else if c.GPUType != "" {
-		return "gpu type is only meaningful in timing mode"
-	}
-	if len(c.P) != len(w.accept) {
-		return "parameter set does not match the workload"
-	}
-	for k := range w.accept {
-		if _, ok := c.P[k]; !ok {
-			return "parameter " + k + " missing"
-		}
-	}
-	return w.check(c.P, numQueues(c))
-}
-
-func sameParams(a, b params) bool {
-	if len(a) != len(b) {
-		return false
-	}
-	for k, v := range a {
-		if b[k] != v {
-			return false
-		}
-	}
-	return true
-}
-
-// classify returns the labels of a case and whether it is non-trivial by the
-// rule of DESIGN.md §4 C01: parameters differ from the acceptance script's
-// fixed size AND at least one of {a dimension not a multiple of the work-group
-// size, > 1 GPU, unified device, timing mode, cdna3}.
-func classify(w *workload, c Case) ([]string, bool) {
-	nq := numQueues(c)
-	mode := "emu"
-	if c.Timing {
-		mode = "timing"
-	}
-	set := fmt.Sprintf("gpus:%d", len(c.GPUs))
-	labels := []string{"workload:" + c.Workload, "mode:" + mode, "arch:" + c.Arch, set, c.Workload + "/" + mode}
-	if c.Unified {
-		labels = append(labels, "unified-gpu")
-	} else if len(c.GPUs) > 1 {
-		labels = append(labels, "plain-multi-gpu")
-	}
-	if c.UnifiedMemory {
-		labels = append(labels, "unified-memory")
-	}
-	part := w.partial(c.P, nq)
-	if part {
-		labels = append(labels, "size-not-multiple-of-work-group")
-	}
-	differs := !sameParams(c.P, w.accept)
-	if differs {
-		labels = append(labels, "size-differs-from-acceptance-size")
-	}
-	nontrivial := differs && (part || len(c.GPUs) > 1 || c.Unified || c.Timing || c.Arch == "cdna3")
-	return labels, nontrivial
-}
-
-// genCase draws one case. Every random choice is made here.
-func genCase(t *rapid.T) Case {
-	var c Case
-	// rapid's first draws of a run favour small values, i.e. the head of the
-	// list; with the handful of cases per shard of the quick tier that would
-	// starve most workloads. The list is therefore rotated by a constant of the
-	// process (shard and seed): generation stays a pure function of rapid's
-	// bit stream inside one process, which is all that shrinking needs.
-	rot := (stats.Shard()*5 + int(stats.Seed()%1000)*7) % len(workloadNames)
-	c.Workload = workloadNames[(rapid.IntRange(0, len(workloadNames)-1).Draw(t, "workload")+rot)%len(workloadNames)]
-	w := registry[c.Workload]
-
-	// architecture
-	c.Arch = "gcn3"
-	if !w.gcn3 || (w.cdna3 && rapid.IntRange(0, 2).Draw(t, "cdna3") == 0) {
-		c.Arch = "cdna3"
-	}
-	// GPU set, unified device, unified memory
-	c.GPUs = rapid.SampledFrom([][]int{{1}, {1}, {1, 2}, {1, 2}, {1, 2, 3, 4}}).Draw(t, "gpus")
-	if len(c.GPUs) > 1 {
-		c.Unified = rapid.Bool().Draw(t, "unified")
-		if w.plainMultiGPU != "" {
-			c.Unified = true
-		}
-	}
-	c.UnifiedMemory = rapid.IntRange(0, 2).Draw(t, "unified-memory") == 0
-	// mode: timing for roughly a quarter of the cases, only inside the classes
-	// the acceptance matrix lists (otherwise the same configuration runs in emulation)
-	wantTiming := rapid.IntRange(0, 3).Draw(t, "timing") == 0
-	if wantTiming && w.timing != nil && w.timing(c) {
-		c.Timing = true
-		if c.Arch == "cdna3" {
-			c.GPUType = "mi300a"
-		}
-	}
-	c.P = w.gen(t, numQueues(c), c.Timing)
-	c.Seed = rapid.Int64Range(0, 9999).Draw(t, "seed")
-	return c
-}
-
-// anchors transcribes tests/acceptance/cases.go: sizeArgs of the benchmark +
-// one of its listed cases (-parallel and --report-all left out).
-func anchors() []Case {
-	mk := func(name, what string, gpus []int, unified, um, timing bool, arch string) Case {
-		c := Case{Workload: name, P: params{}, Arch: arch, GPUs: gpus, Unified: unified, UnifiedMemory: um, Timing: timing, Seed: 1,
-			Anchor: what}
-		for k, v := range registry[name].accept {
-			c.P[k] = v
-		}
-		if timing && arch == "cdna3" {
-			c.GPUType = "mi300a"
-		}
-		return c
-	}
-	return []Case{
-		mk("fir", "fir -length=8192 {gpus 1,2,3,4 timing}", []int{1, 2, 3, 4}, false, false, true, "gcn3"),
-		mk("aes", "aes -length=16384 {gpus 1,2 emu unified-memory}", []int{1, 2}, false, true, false, "gcn3"),
-		mk("matrixmultiplication", "matrixmultiplication -x=128 -y=128 -z=128 {unified-gpus 1,2 emu}", []int{1, 2}, true, false, false, "gcn3"),
-		mk("vectoradd", "vectoradd -width=4096 -height=1 {gpus 1 timing cdna3 mi300a}", []int{1}, false, false, true, "cdna3"),
-		mk("stencil2d", "stencil2d {unified-gpus 1,2,3,4 emu cdna3}", []int{1, 2, 3, 4}, true, false, false, "cdna3"),
-		mk("pagerank", "pagerank -node=64 -sparsity=0.5 -iterations=2 {gpus 1 timing unified-memory}", []int{1}, false, true, true, "gcn3"),
-		mk("bfs", "bfs -node=1024 {unified-gpus 1,2 emu}", []int{1, 2}, true, false, false, "gcn3"),
-		mk("relu", "relu {unified-gpus 1,2 timing}", []int{1, 2}, true, false, true, "gcn3"),
-		mk("kmeans", "kmeans -points=1024 -features=32 -clusters=5 -max-iter=5 {gpus 1,2,3,4 emu}", []int{1, 2, 3, 4}, false, false, false, "gcn3"),
-		mk("floydwarshall", "floydwarshall {gpus 1,2 timing}", []int{1, 2}, false, false, true, "gcn3"),
-		mk("spmv", "spmv {gpus 1 emu cdna3}", []int{1}, false, false, false, "cdna3"),
-		mk("nw", "nw -length=64 {gpus 1 emu cdna3}", []int{1}, false, false, false, "cdna3"),
-		mk("simpleconvolution", "simpleconvolution {gpus 1,2 emu}", []int{1, 2}, false, false, false, "gcn3"),
-		mk("matrixtranspose", "matrixtranspose -width=1024 {gpus 1,2,3,4 emu unified-memory}", []int{1, 2, 3, 4}, false, true, false, "gcn3"),
-		mk("atax", "atax -x=256 -y=256 {unified-gpus 1,2,3,4 emu}", []int{1, 2, 3, 4}, true, false, false, "gcn3"),
-		mk("fft", "fft -MB=1 {gpus 1 emu cdna3}", []int{1}, false, false, false, "cdna3"),
-	}
-}
